@@ -62,10 +62,10 @@ CLAIMS["C11"] = {
 }
 
 CLAIMS["C13"] = {
-    "technique": "static analysis: field-cursor bound inference (max over guarded increments and constant stores vs declared array extent), per-iteration longest-path store count in copy_chars vs read-budget divisors, append-destination rule, guard provenance of the command-available flag and of any bulk copy that bypasses the telnet state machine",
+    "technique": "static analysis: field-cursor bound inference (max over guarded increments and constant stores vs declared array extent), per-iteration longest-path store count in copy_chars vs read-budget divisors, append-destination rule, guard provenance of the command-available flag and of any bulk copy that bypasses the telnet state machine, must-leave analysis of the transient telnet states, store-on-every-path of the data state's default branch, initialisation dominance for fixed-offset reads of the sub-negotiation buffer, must-pass-through of the pending-command test before the input discard",
     "text": "Decides the memory clauses of input framing for every byte stream at once: cursor fields indexing fixed arrays of the connection record cannot exceed the last valid index at any use; "
             "copy_chars' worst-case expansion per input byte (longest acyclic iteration path) is covered by every telnet read budget and the scratch buffers match the text buffer; new input is appended at text_end. "
-            "Two structural necessary conditions of split-independence are decided: CMD_IN_BUF is raised only on the result of the shared buffer scan cmd_in_buf(), and input bytes bypass the per-byte state machine only under a test of the complete state word. Independence of delivered lines from packet boundaries in general and backspace editing are behavioural and not decided; text_end arithmetic is reported as undecided.",
+            "Two structural necessary conditions of split-independence are decided: CMD_IN_BUF is raised only on the result of the shared buffer scan cmd_in_buf(), and input bytes bypass the per-byte state machine only under a test of the complete state word. Independence of delivered lines from packet boundaries in general and backspace editing are behavioural and not decided; text_end arithmetic is reported as undecided. Also decided: each after-IAC state assigns ip->state on every path through its case (so a two-byte command never swallows the next data byte), the data state's default branch stores a byte on every path, fixed-offset reads of sb_buf are dominated by the clear of its unused tail, and the over-long-line discard is reached only through cmd_in_buf() unless the bytes were already taken off the socket.",
     "design_ref": "DESIGN.md §5 C13",
 }
 
@@ -110,10 +110,10 @@ CLAIMS["C07"] = {
 }
 
 CLAIMS["C08"] = {
-    "technique": "static analysis: per-opcode region analysis of the interpreter's fetch cases (destructed-object scrub), must-pass-through of every unlink step on all paths of destruct_object, precondition dominance in move_object, link-store-after-hook reachability, publish-before-destructible ordering in load_object/clone_object",
+    "technique": "static analysis: per-opcode region analysis of the interpreter's fetch cases (destructed-object scrub), must-pass-through of every unlink step on all paths of destruct_object, precondition dominance in move_object, link-store-after-hook reachability, publish-before-destructible ordering in load_object/clone_object, stale-pointer typestate over object pointers for targets of apply()/apply_low() and for next_all/next_inv link reads across LPC callbacks (saved-successor idiom checked by a forward search to the first use)",
     "text": "Decides the destruction/visibility mechanism on all paths: each interpreter case that copies a stored value to the stack substitutes 0 for destructed objects (other copying cases are enumerated and reviewed); "
             "destruct_object cannot set O_DESTRUCTED without having passed the stack scrub, inventory unlink, name-hash and object-list removal, living-name, sentence, input_to, heart-beat steps and emptied its inventory, and disconnects afterwards; "
-            "move_object relinks only after the containment-cycle walk and the destination-alive test. no inventory link is written after a re-entrant hook (destruct_object's unlink is the reviewed exception, constrained by the re-read rule); a new object is entered into the name table before anything that can destruct it runs. The forest invariant over operation histories is not decided.",
+            "move_object relinks only after the containment-cycle walk and the destination-alive test. no inventory link is written after a re-entrant hook (destruct_object's unlink is the reviewed exception, constrained by the re-read rule); a new object is entered into the name table before anything that can destruct it runs. The forest invariant over operation histories is not decided. A local object pointer is handed to apply()/apply_low() only after a liveness test since the last LPC-running call (safe_apply is shown to refuse destructed targets itself); loops over obj_list and inventories do not follow a link out of an object that a callback may have destructed (clean_up() in a self-destructed object and the shout() walk were found, replayed and fixed). Walks that continue after a callback merely moved the object are reported undecided.",
     "design_ref": "DESIGN.md §5 C08",
 }
 
@@ -135,26 +135,26 @@ CLAIMS["C19"] = {
 }
 
 CLAIMS["C06"] = {
-    "technique": "static analysis: ownership table over struct layouts with must-pass-through of each owning field's release in its deallocator (bypass only via the field's NULL test), classification of every pointer field of owner records, guardedness of every increment of a sub-32-bit reference counter, avoid-set reachability for partial-release call sites (setjmp recovery edges replaced by their raising origins)",
+    "technique": "static analysis: ownership table over struct layouts with must-pass-through of each owning field's release in its deallocator (bypass only via the field's NULL test), classification of every pointer field of owner records, guardedness of every increment of a sub-32-bit reference counter, avoid-set reachability for partial-release call sites (setjmp recovery edges replaced by their raising origins), width check of every reference counter, leak-on-error typestate for values owned only by a C local across an unprotected LPC callback (fresh container results and hand-counted references; higher-order callees resolved at the call site)",
     "text": "Decides two structural necessary conditions of exact counting: every release function (sentence, pending call, function pointer, object, connection, array/class/mapping/object variables) releases each owning field on every path before giving the container up, and every pointer field of those records is classified owning/not-owning; "
             "every increment of a 16-bit reference counter is enumerated - strings saturate, eight counters do not (recorded findings keyed by declaration, so a new narrow counter or a de-saturated one is reported). "
-            "The partial release free_called_call() (which keeps the argument array) is reached only after the array was handed over or found absent, on normal and recovery paths. That counts return to their previous values after arbitrary evaluation sequences is behavioural and not decided.",
+            "The partial release free_called_call() (which keeps the argument array) is reached only after the array was handed over or found absent, on normal and recovery paths. That counts return to their previous values after arbitrary evaluation sequences is behavioural and not decided. Every reference counter is at least 32 bits wide (a saturating 16-bit counter is reported as a leak, a plain one as a premature free). A container result or hand-taken reference that only a C local owns is anchored, handed over or released before the function runs LPC code outside a catch barrier (callbacks reached only through master or snoop hooks are reported undecided).",
     "design_ref": "DESIGN.md §5 C06",
 }
 
 CLAIMS["C02"] = {
-    "technique": "static analysis: growth-site rule over every realloc in the compiler units, per-iteration weighted longest-path in budgeted lexer copy loops, must-pass-through of state release in epilog, call-graph reachability of fatal() from compile_file (context-sensitive for comparator arguments), representation-invariant rule on the locals table, reset-completeness of lexer statics (post-dominating resets, drain loops, constant propagation to every return)",
+    "technique": "static analysis: growth-site rule over every realloc in the compiler units, per-iteration weighted longest-path in budgeted lexer copy loops, must-pass-through of state release in epilog, call-graph reachability of fatal() from compile_file (context-sensitive for comparator arguments), representation-invariant rule on the locals table, reset-completeness of lexer statics (post-dominating resets, drain loops, constant propagation to every return), dominance of an index test inside the loop for growing-index stores (with extent arithmetic where the array has a declared size), report-then-copy reachability for size tests that only call lexerror/yyerror, constant-truth check of assignment conditions, guard dominance excluding -1 for signed division of source-text values",
     "text": "Decides structural necessary conditions of compiler safety and reusability for all source texts: every table reallocation really grows (or is an exact fit); lexer copy loops that spend a space budget never store more bytes than they charge and SAVEC stores are bounded; "
             "epilog releases lexer, scratchpad and locals on every return; errors are counted and block object creation; fatal() is reachable from compilation only via reviewed internal-inconsistency sites; "
-            "whoever drops a local's sem_value removes it from the live range. every lexer static written while yylex runs is reset per compilation, is a pure statistic, or is provably back at its initial value at each return of its only writer (two flags that leaked into the next file were found and fixed). The stuck re-entrancy flag after an escaping error is a recorded finding. Termination and full equality of the produced program with a fresh driver's (compiler-side state beyond the lexer) are not decided.",
+            "whoever drops a local's sem_value removes it from the live range. every lexer static written while yylex runs is reset per compilation, is a pure statistic, or is provably back at its initial value at each return of its only writer (two flags that leaked into the next file were found and fixed). The stuck re-entrancy flag after an escaping error is a recorded finding. Termination and full equality of the produced program with a fresh driver's (compiler-side state beyond the lexer) are not decided. Also decided for the lexer/preprocessor: an index that grows with the input is compared with a bound on every way into its store (and the bound fits the array's extent), a size test that only reports does not fall through into the copy it guards, no condition is an assignment of never-null pointer arithmetic, and #if arithmetic and constant folding never divide a signed value by a source-chosen -1 (INT_MIN / -1 traps; found in the folding code, replayed and fixed).",
     "design_ref": "DESIGN.md §5 C02",
 }
 
 CLAIMS["C01"] = {
-    "technique": "static analysis: clang's type-resolved format checker with injected format attributes over all units plus a literal-provenance rule, output-bound computation for every formatted write into a fixed char array, must-pass CHECK_TYPES analysis of the efun dispatch cases, stack-space check dominance for every value-stack push, saturating-length flow rule, LPC-integer index taint with range guards, stale-pointer typestate for mapping internals held across LPC callbacks, tag-domain abstract interpretation of every efun against the dispatcher's guarantees (argument slot tracking through sp arithmetic, per argument count)",
+    "technique": "static analysis: clang's type-resolved format checker with injected format attributes over all units plus a literal-provenance rule, output-bound computation for every formatted write into a fixed char array, must-pass CHECK_TYPES analysis of the efun dispatch cases, stack-space check dominance for every value-stack push, saturating-length flow rule, LPC-integer index taint with range guards, stale-pointer typestate for mapping internals held across LPC callbacks, tag-domain abstract interpretation of every efun against the dispatcher's guarantees (argument slot tracking through sp arithmetic, per argument count), guard dominance excluding -1 for signed division of LPC numbers, positivity of V for every `x[V - K]` access, borrowed-value typestate for pointers into apply_ret_value (derived pointers, ownership idioms, callee summaries for lent parameters)",
     "text": "Decides structural necessary conditions of memory safety for all programs at once, per site: ~900 reporter calls have literal or provably driver-literal formats with well-formed conversions; every sprintf/strcpy into a fixed buffer has a computed bound (LPC-controlled numbers at full range) or is reported undecided; "
             "each F_EFUNn dispatch is behind one CHECK_TYPES per fixed argument; every sp increment is behind a space check or a pop (73 unguarded push sites are recorded findings, so a new one is reported); MSTR_SIZE never reaches a copy/allocation length without its USHRT_MAX fallback; "
-            "subscripts and copy lengths derived from LPC integers are dominated by lower and upper bounds paired with the indexed container. mapping node/table pointers that stay live across an LPC callback belong to a mapping the callback cannot reach (private copy or proven single reference). Use-after-free in general, efun-internal pointer arithmetic, pc staying inside the bytecode are not decided. Every read of a pointer union member of an efun argument (213 efuns, per admissible argument count) happens under a tag set - from the dispatcher or from the efun's own tests - for which that member is a pointer (three efuns that used unchecked arguments as pointers were found, replayed and fixed); reads through slots the interpreter cannot resolve are counted, not claimed.",
+            "subscripts and copy lengths derived from LPC integers are dominated by lower and upper bounds paired with the indexed container. mapping node/table pointers that stay live across an LPC callback belong to a mapping the callback cannot reach (private copy or proven single reference). Use-after-free in general, efun-internal pointer arithmetic, pc staying inside the bytecode are not decided. Every read of a pointer union member of an efun argument (213 efuns, per admissible argument count) happens under a tag set - from the dispatcher or from the efun's own tests - for which that member is a pointer (three efuns that used unchecked arguments as pointers were found, replayed and fixed); reads through slots the interpreter cannot resolve are counted, not claimed. Signed division/modulo of LPC integers is reached only with the divisor known not to be -1 (INT64_MIN / -1 killed the driver: found, replayed, fixed). Accesses of the form x[len - K] on script-supplied strings are reached only with len >= K (four under-reads fixed); pointers into apply_ret_value, and anything derived from them, are not used after a call that may store a new apply result, including through callees that make an apply of their own (one dangling save-file name in ed found and fixed).",
     "design_ref": "DESIGN.md §5 C01",
 }
 
